@@ -88,6 +88,7 @@ struct WorldCfg {
     int flush_err = 0;     // flush returns SCPI_RES_ERR
     bool with_units = true;
     bool with_control = true;
+    bool with_error_cb = true;
 };
 
 using Handler = std::function<scpi_result_t(World &)>;
@@ -132,6 +133,7 @@ struct World {
 
     int add_command(const std::string &pattern, Handler h);         // returns tag
     int add_lib_command(const std::string &pattern, scpi_command_callback_t cb);
+    int add_null_command(const std::string &pattern);               // table entry with a NULL callback (a defined no-action header)
     void add_standard_commands();                                   // IEEE 488.2 + required SCPI, library handlers
     void seal();                                                    // terminate table and SCPI_Init
 
